@@ -1,2 +1,348 @@
-(* Props.C09 — placeholder; theorems are being added. *)
-Require Import PyStr Read.
+(* Props.C09 — reading is invariant under presentation-only changes of the text.
+   Statements only; proofs in Proofs/StripFacts.v (strip, lines_keep), Proofs/ReadInvProofs.v
+   (each consumer of the lines), Proofs/ReadCongr.v (read as a function of what the consumers
+   see of each section), Proofs/BlocksCongr.v (blocks of C05; the transformation family).
+
+   Formal reading.  read o text is LASFile.read (Model/Read.v); parse_body the header-items
+   loop; normal_items / normal_engine, genfromtxt_rows / numpy_engine the two data engines;
+   inspect / inspect_twice the column sniffer.  One theorem per generator of the family, each
+   for a change at an ARBITRARY site (a ++ x :: b vs a ++ b), most also for any number of
+   changes at once (ins_lines, Forall2 streq), then whole-read theorems and composition.
+
+   Proved at full strength (all texts / line lists; induction, no bound):
+     C09_blank_header, C09_comment_header   a blank line / a line whose first non-blank
+                         character is a comment character, anywhere in a header section;
+     C09_blank_data, C09_comment_data       the same in a data section, for BOTH engines (token
+                         stream of the normal engine, rows of the numpy engine, hence the
+                         columns), and C09_sniff_blank / C09_sniff_comment / C09_sniff_skipped:
+                         the column sniffer (both passes) -- unconditional since the sample
+                         window counts data lines (lasio 5035e7a) and hyphens are counted on data
+                         lines only (lasio d2ac2bb); both were genuine defects found here;
+     C09_strip_padding   strip (ws1 ++ l ++ ws2) = strip l; C09_padding_*: every consumer (header
+                         loop, section table, ~Other text, normal engine, numpy engine,
+                         sniffer) gives the same result on two line lists that are pointwise
+                         equal after strip; C09_padding_read: hence the whole read does;
+     C09_crlf_lines, C09_crlf_read          lines_keep of the CRLF text = the LF lines with CR
+                         before LF; read (crlf t) = read t;
+     C09_final_newline, C09_final_newline_read   with / without the final newline: same lines up
+                         to the last terminator; same read;
+     C09_rewrap_tokens   the normal engine is a function of the concatenated per-line token
+                         lists and of n_columns; C09_rewrap_data: for a WRAP=YES section the
+                         whole data-section read is the same when the reshape width is (it is
+                         the curve count whenever the file declares WRAP YES and the sniffed
+                         count is smaller or undetermined: C09_rewrap_width) and the sniffer
+                         recommends the same substitutions for both wrappings;
+     C09_redelimit_space the tokens of a SPACE-delimited line are its white-space separated
+                         fields: any amount of blanks/tabs between and around them gives the
+                         same tokens (lines without quotes / ^Z on which the substitutions do
+                         not fire -- C02_sub_identity gives that from "no regex match");
+                         C09_redelimit_comma: a comma-joined line splits back into its tokens;
+     C09_blocks          read depends on the blocks (C05) only through what each block's consumer
+                         sees: equal titles + indistinguishable bodies => equal read, wherever
+                         the blocks lie (line numbers shift);
+     C09_skip_read       any number of blank / '#' lines at any sites of header and data
+                         blocks (and any non-title lines before the first section): equal read;
+     C09_compose, C09_compose_read   generic: a relation whose single steps preserve f preserves it
+                         along every finite chain (steps in either direction); instantiated
+                         with the union of the generators above (pres_step).
+   Partial / not claimed:
+     - C09_rewrap_data has the two hypotheses named above (same recommended substitutions,
+       same reshape width); a re-wrap that changes which sampled lines contain a '-' can
+       change the substitutions -- that is lasio's heuristic, checked by the correspondence.
+     - COMMA / TAB with padding blanks: the model identifies a numeric cell by its token text,
+       so " 1" and "1" are different tokens although float() maps them to the same value; that
+       equality is a fact about CPython's float (oracle fhex), exercised by the correspondence
+       only.  Changing DLM itself changes a header item, so it is outside "equal header items".
+     - ~Other: blank lines are content there; insertion is not claimed (skip_ins_block demands
+       equal bodies for ~O blocks); white space at line ends is covered (the text is built from
+       stripped lines). *)
+From Coq Require Import List Arith NArith Bool String.
+Import ListNotations.
+Require Import PyStr Regex NumLit Num Tables SectionParse Sections DataRead Read.
+Require Import RegexSubFacts SplitWsFacts StripFacts SectionsProofs JunkProofs ReadInvProofs ReadCongr BlocksCongr.
+Open Scope string_scope.
+Open Scope list_scope.
+Open Scope N_scope.
+
+(* ---- 1. header sections ------------------------------------------------------------------- *)
+Theorem C09_blank_header : forall v k c ig cc tr a x b acc,
+  strip x = [] ->
+  parse_body v k c ig cc tr (a ++ x :: b) acc = parse_body v k c ig cc tr (a ++ b) acc.
+Proof. exact blank_header. Qed.
+
+Theorem C09_comment_header : forall v k c ig cc tr a x b acc ch r,
+  strip x = ch :: r -> in_str ch cc = true ->
+  parse_body v k c ig cc tr (a ++ x :: b) acc = parse_body v k c ig cc tr (a ++ b) acc.
+Proof. exact comment_header. Qed.
+
+Theorem C09_skipped_header : forall v k c ig cc tr lines lines' acc,
+  ins_lines (fun x => classify v k c cc x = LSkip) lines lines' ->
+  parse_body v k c ig cc tr lines' acc = parse_body v k c ig cc tr lines acc.
+Proof. exact parse_body_ins_skipped. Qed.
+
+(* ---- 2. data sections ----------------------------------------------------------------------- *)
+Theorem C09_blank_data : forall fhex fstr d subs n a x b,
+  strip x = [] ->
+  normal_items d subs (a ++ x :: b) = normal_items d subs (a ++ b) /\
+  genfromtxt_rows (a ++ x :: b) = genfromtxt_rows (a ++ b) /\
+  normal_engine fhex fstr d subs n (a ++ x :: b) = normal_engine fhex fstr d subs n (a ++ b) /\
+  numpy_engine fhex (a ++ x :: b) = numpy_engine fhex (a ++ b).
+Proof. exact blank_data_all. Qed.
+
+Theorem C09_comment_data : forall fhex fstr d subs n a x b,
+  startswith [ch_hash] (strip x) = true ->
+  normal_items d subs (a ++ x :: b) = normal_items d subs (a ++ b) /\
+  genfromtxt_rows (a ++ x :: b) = genfromtxt_rows (a ++ b) /\
+  normal_engine fhex fstr d subs n (a ++ x :: b) = normal_engine fhex fstr d subs n (a ++ b) /\
+  numpy_engine fhex (a ++ x :: b) = numpy_engine fhex (a ++ b).
+Proof. exact comment_data_all. Qed.
+
+Theorem C09_sniff_skipped : forall d subs body body',
+  ins_lines (fun x => is_skip x = true) body body' ->
+  inspect_twice d body' subs = inspect_twice d body subs.
+Proof. exact inspect_twice_ins_skipped. Qed.
+
+Theorem C09_sniff_blank : forall d subs a x b,
+  strip x = [] -> inspect_twice d (a ++ x :: b) subs = inspect_twice d (a ++ b) subs.
+Proof. exact sniff_blank. Qed.
+
+Theorem C09_sniff_comment : forall d subs a x b,
+  startswith [ch_hash] (strip x) = true -> inspect_twice d (a ++ x :: b) subs = inspect_twice d (a ++ b) subs.
+Proof. exact sniff_comment. Qed.
+
+(* the three together: the data readers cannot tell the two bodies apart *)
+Theorem C09_skipped_data : forall b b',
+  ins_lines (fun x => is_skip x = true) b b' -> data_equiv b' b.
+Proof. exact data_equiv_ins_skipped. Qed.
+
+(* ---- 3. white space around lines ------------------------------------------------------------- *)
+Theorem C09_strip_padding : forall ws1 l ws2,
+  forallb is_space ws1 = true -> forallb is_space ws2 = true -> strip (ws1 ++ l ++ ws2) = strip l.
+Proof. exact strip_pad. Qed.
+
+Theorem C09_strip_idempotent : forall l, strip (strip l) = strip l.
+Proof. exact strip_idem. Qed.
+
+Theorem C09_strip_blank : forall l, strip l = [] <-> forallb is_space l = true.
+Proof. exact strip_nil_iff. Qed.
+
+Theorem C09_padding_map : forall pad : list N -> list N,
+  (forall l, strip (pad l) = strip l) -> forall ls, Forall2 streq (map pad ls) ls.
+Proof. exact Forall2_map_pad. Qed.
+
+Theorem C09_padding_header : forall v k c ig cc tr lines lines',
+  Forall2 streq lines lines' ->
+  forall acc, parse_body v k c ig cc tr lines acc = parse_body v k c ig cc tr lines' acc.
+Proof. exact parse_body_streq. Qed.
+
+Theorem C09_padding_sections : forall ls ls',
+  Forall2 streq ls ls' -> find_sections ls = find_sections ls'.
+Proof. exact find_sections_streq. Qed.
+
+Theorem C09_padding_other : forall ls ls' p,
+  Forall2 streq ls ls' -> other_text ls p = other_text ls' p.
+Proof. exact other_text_streq. Qed.
+
+Theorem C09_padding_data : forall b b', Forall2 streq b b' -> data_equiv b b'.
+Proof. exact data_equiv_streq. Qed.
+
+Theorem C09_padding_read : forall fhex fstr numeq o t t',
+  Forall2 streq (lines_keep t) (lines_keep t') ->
+  read fhex fstr numeq o t = read fhex fstr numeq o t'.
+Proof. exact read_streq. Qed.
+
+(* ---- 4. CRLF, final newline --------------------------------------------------------------------- *)
+Theorem C09_crlf_strip : forall l, strip (l ++ [13; 10]) = strip (l ++ [10]) /\ strip (l ++ [10]) = strip l.
+Proof. exact strip_terminators. Qed.
+
+Theorem C09_crlf_lines : forall s,
+  lines_keep (crlf s) = map crlf (lines_keep s) /\ Forall2 streq (lines_keep (crlf s)) (lines_keep s).
+Proof. exact lines_keep_crlf_both. Qed.
+
+Theorem C09_crlf_read : forall fhex fstr numeq o t,
+  read fhex fstr numeq o (crlf t) = read fhex fstr numeq o t.
+Proof. exact read_crlf. Qed.
+
+Theorem C09_final_newline : forall t c, c <> 10 ->
+  exists ls l, lines_keep (t ++ [c]) = ls ++ [l] /\ lines_keep (t ++ [c; 10]) = ls ++ [l ++ [10]].
+Proof. exact lines_keep_final_newline. Qed.
+
+Theorem C09_final_newline_read : forall fhex fstr numeq o t c, c <> 10 ->
+  read fhex fstr numeq o (t ++ [c; 10]) = read fhex fstr numeq o (t ++ [c]).
+Proof. exact read_final_newline. Qed.
+
+(* ---- 5. re-wrapping, re-delimiting --------------------------------------------------------------- *)
+Theorem C09_tokens_of_lines : forall d subs body,
+  normal_items d subs body = List.concat (map (toks d subs) body).
+Proof. exact normal_items_toks. Qed.
+
+Theorem C09_rewrap_tokens : forall fhex fstr d subs n a b,
+  List.concat (map (toks d subs) a) = List.concat (map (toks d subs) b) ->
+  normal_items d subs a = normal_items d subs b /\
+  normal_engine fhex fstr d subs n a = normal_engine fhex fstr d subs n b.
+Proof. exact rewrap_tokens_all. Qed.
+
+Theorem C09_rewrap_data : forall fhex fstr numeq o pw pn d b b' cs wd sn sn' subs,
+  hval_is_str pw (s2l "YES") = true ->
+  inspect_twice d b (match d with DComma => comma_delim_subs | _ => default_subs end) = (sn, subs) ->
+  inspect_twice d b' (match d with DComma => comma_delim_subs | _ => default_subs end) = (sn', subs) ->
+  n_columns_of sn (List.length (s_items cs)) wd = n_columns_of sn' (List.length (s_items cs)) wd ->
+  List.concat (map (toks d subs) b) = List.concat (map (toks d subs) b') ->
+  data_core fhex fstr numeq o pw pn d b cs wd = data_core fhex fstr numeq o pw pn d b' cs wd.
+Proof. exact data_core_rewrap. Qed.
+
+Theorem C09_rewrap_width : forall sn nc,
+  (match sn with Some n => (n < nc)%nat | None => True end) -> n_columns_of sn nc true = nc.
+Proof. exact n_columns_of_wrapped. Qed.
+
+Theorem C09_redelimit_space : forall subs raw raw',
+  startswith [ch_hash] (strip raw) = false -> apply_subs subs (strip raw) = strip raw ->
+  in_str 26 raw = false -> in_str 34 raw = false -> in_str 39 raw = false ->
+  startswith [ch_hash] (strip raw') = false -> apply_subs subs (strip raw') = strip raw' ->
+  in_str 26 raw' = false -> in_str 34 raw' = false -> in_str 39 raw' = false ->
+  split_ws raw = split_ws raw' -> toks DSpace subs raw = toks DSpace subs raw'.
+Proof. exact toks_space_ws. Qed.
+
+Theorem C09_redelimit_space_fields : forall pairs,
+  Forall (fun p => forallb is_space (fst p) = true /\ good_tok (snd p)) pairs ->
+  Forall (fun p => fst p <> []) (tl pairs) ->
+  in_str 34 (List.concat (map padtok pairs)) = false -> in_str 39 (List.concat (map padtok pairs)) = false ->
+  split_line DSpace (List.concat (map padtok pairs)) = map snd pairs.
+Proof. exact split_line_space_padded. Qed.
+
+Theorem C09_redelimit_comma : forall ts,
+  ts <> [] -> Forall (fun t => in_str ch_comma t = false) ts ->
+  split_line DComma (join [ch_comma] ts) = ts.
+Proof. exact split_line_comma_join. Qed.
+
+(* ---- 6. whole read on blocks; composition ---------------------------------------------------------- *)
+Theorem C09_blocks : forall fhex fstr numeq o t t' pre bs pre' bs',
+  lines_keep t = pre ++ render bs -> lines_keep t' = pre' ++ render bs' ->
+  notitles pre -> notitles pre' -> Forall wf_block bs -> Forall wf_block bs' ->
+  Forall2 block_equiv bs bs' ->
+  read fhex fstr numeq o t = read fhex fstr numeq o t'.
+Proof. exact read_blocks_congr. Qed.
+
+Theorem C09_skip_read : forall fhex fstr numeq o t t' pre pre' bs bs',
+  lines_keep t = pre ++ render bs -> lines_keep t' = pre' ++ render bs' ->
+  notitles pre -> notitles pre' -> Forall wf_block bs ->
+  Forall2 skip_ins_block bs bs' ->
+  read fhex fstr numeq o t' = read fhex fstr numeq o t.
+Proof. exact read_ins_skipped. Qed.
+
+Theorem C09_compose : forall (T A : Type) (f : T -> A) (R : T -> T -> Prop),
+  (forall x y, R x y -> f x = f y) -> forall x y, chain T R x y -> f x = f y.
+Proof. exact chain_inv. Qed.
+
+Theorem C09_compose_list : forall (T A : Type) (f : T -> A) (R : T -> T -> Prop),
+  (forall x y, R x y -> f x = f y) -> forall ys x z, path T R x ys z -> f x = f z.
+Proof. exact path_inv. Qed.
+
+Theorem C09_step_read : forall fhex fstr numeq o t t',
+  pres_step t t' -> read fhex fstr numeq o t = read fhex fstr numeq o t'.
+Proof. exact pres_step_read. Qed.
+
+Theorem C09_compose_read : forall fhex fstr numeq o t t',
+  chain _ pres_step t t' -> read fhex fstr numeq o t = read fhex fstr numeq o t'.
+Proof. exact pres_chain_read. Qed.
+
+(* ---- non-vacuity ------------------------------------------------------------------------------------- *)
+Definition nl (s : string) : list N := s2l s ++ [10].
+Definition ex_fhex (t : list N) : option (list N) :=
+  match py_float_dec t with Some _ => Some t | None => None end.
+Definition ex_fstr (t : list N) : list N := t.
+Definition ex_numeq (a b : list N) : bool := str_eqb a b.
+Definition ex_opts : ropts := mkropts false CaseUpper true true false.
+
+Definition ex_blocks : list block :=
+  [ (nl "~Version", [nl " VERS. 2.0 : v"; nl " WRAP.  NO : w"]);
+    (nl "~Well", [nl " STRT.M 1.0 : start"; nl " NULL. -999.25 : null"]);
+    (nl "~Curve", [nl " DEPT.M : depth"; nl " A.V : a"]);
+    (nl "~ASCII", [nl " 1.0 -2.0"; nl " 3.0 -999.25"]);
+    (nl "~Params", [nl " X. 1 : x"]) ].
+Definition ex_blocks_noise : list block :=
+  [ (nl "~Version", [nl ""; nl " VERS. 2.0 : v"; nl "# a comment - with a hyphen"; nl " WRAP.  NO : w"; nl "   "]);
+    (nl "~Well", [nl " STRT.M 1.0 : start"; nl "#"; nl " NULL. -999.25 : null"]);
+    (nl "~Curve", [nl "   # c"; nl " DEPT.M : depth"; nl " A.V : a"]);
+    (nl "~ASCII", [nl "# c - d"; nl " 1.0 -2.0"; nl ""; nl " 3.0 -999.25"; nl " # last"]);
+    (nl "~Params", [nl " X. 1 : x"; nl ""]) ].
+Definition ex_text : list N := List.concat (render ex_blocks).
+Definition ex_text_noise : list N := List.concat (render ex_blocks_noise).
+
+Ltac ins_tac := repeat first [ apply ji_nil | apply ji_keep | apply ji_junk; [vm_compute; reflexivity|] ].
+
+Example C09_ex_hyps :
+  lines_keep ex_text = [] ++ render ex_blocks /\ lines_keep ex_text_noise = [] ++ render ex_blocks_noise /\
+  Forall wf_block ex_blocks /\ Forall2 skip_ins_block ex_blocks ex_blocks_noise.
+Proof.
+  split; [vm_compute; reflexivity|]. split; [vm_compute; reflexivity|]. split; [repeat constructor|].
+  repeat (apply Forall2_cons || apply Forall2_nil); (split; [reflexivity|]);
+    cbn [fst snd];
+    match goal with |- match ?t with _ => _ end => let r := eval vm_compute in t in change t with r end; cbv iota; ins_tac.
+Qed.
+
+Example C09_ex_read :
+  match read ex_fhex ex_fstr ex_numeq ex_opts ex_text,
+        read ex_fhex ex_fstr ex_numeq ex_opts ex_text_noise,
+        read ex_fhex ex_fstr ex_numeq ex_opts (crlf ex_text_noise) with
+  | ROk l, ROk l', ROk l'' =>
+      l_data l = [ [CNum (s2l "1.0"); CNum (s2l "3.0")]; [CNum (s2l "-2.0"); CNaN] ] /\ l' = l /\ l'' = l
+  | _, _, _ => False
+  end.
+Proof. vm_compute. repeat split. Qed.
+
+Example C09_ex_lines :
+  lines_keep (s2l "a" ++ [13; 10] ++ s2l " b") = [s2l "a" ++ [13; 10]; s2l " b"] /\
+  strip (s2l "a" ++ [13; 10]) = s2l "a" /\ crlf (nl "a") = s2l "a" ++ [13; 10] /\
+  strip ([9; 32] ++ s2l "x y" ++ [32; 13; 10]) = s2l "x y".
+Proof. repeat split; vm_compute; reflexivity. Qed.
+
+Example C09_ex_rewrap :
+  List.concat (map (toks DSpace default_subs) [nl "1 2 3"; nl "4 5 6"]) =
+  List.concat (map (toks DSpace default_subs) [nl "1"; nl "2 3 4"; nl ""; nl "5 6"]) /\
+  normal_engine ex_fhex ex_fstr DSpace default_subs 3 [nl "1"; nl "2 3 4"; nl ""; nl "5 6"] =
+  DOk [ [CNum (s2l "1"); CNum (s2l "4")]; [CNum (s2l "2"); CNum (s2l "5")]; [CNum (s2l "3"); CNum (s2l "6")] ].
+Proof. split; vm_compute; reflexivity. Qed.
+
+Example C09_ex_redelimit :
+  split_ws (s2l "1.5   -2" ++ [9] ++ s2l "x ") = split_ws (s2l " 1.5 -2 x") /\
+  toks DSpace default_subs (s2l "1.5   -2" ++ [9] ++ s2l "x ") = [s2l "1.5"; s2l "-2"; s2l "x"] /\
+  split_line DComma (join [ch_comma] [s2l "1.5"; s2l "-2"; s2l "x"]) = [s2l "1.5"; s2l "-2"; s2l "x"].
+Proof. repeat split; vm_compute; reflexivity. Qed.
+
+Print Assumptions C09_blank_header.
+Print Assumptions C09_comment_header.
+Print Assumptions C09_skipped_header.
+Print Assumptions C09_blank_data.
+Print Assumptions C09_comment_data.
+Print Assumptions C09_sniff_skipped.
+Print Assumptions C09_sniff_blank.
+Print Assumptions C09_sniff_comment.
+Print Assumptions C09_skipped_data.
+Print Assumptions C09_strip_padding.
+Print Assumptions C09_strip_idempotent.
+Print Assumptions C09_strip_blank.
+Print Assumptions C09_padding_map.
+Print Assumptions C09_padding_header.
+Print Assumptions C09_padding_sections.
+Print Assumptions C09_padding_other.
+Print Assumptions C09_padding_data.
+Print Assumptions C09_padding_read.
+Print Assumptions C09_crlf_strip.
+Print Assumptions C09_crlf_lines.
+Print Assumptions C09_crlf_read.
+Print Assumptions C09_final_newline.
+Print Assumptions C09_final_newline_read.
+Print Assumptions C09_tokens_of_lines.
+Print Assumptions C09_rewrap_tokens.
+Print Assumptions C09_rewrap_data.
+Print Assumptions C09_rewrap_width.
+Print Assumptions C09_redelimit_space.
+Print Assumptions C09_redelimit_space_fields.
+Print Assumptions C09_redelimit_comma.
+Print Assumptions C09_blocks.
+Print Assumptions C09_skip_read.
+Print Assumptions C09_compose.
+Print Assumptions C09_compose_list.
+Print Assumptions C09_step_read.
+Print Assumptions C09_compose_read.
